@@ -573,6 +573,10 @@ func (u *Unmarshaler) processFieldPrimitiveWithJSONNumber(fieldType reflect.Type
 			return err
 		}
 
+		if value.OverflowInt(iValue) {
+			return newOverflowError(fullName, v.String())
+		}
+
 		value.SetInt(iValue)
 	case reflect.Uint, reflect.Uint8, reflect.Uint16, reflect.Uint32, reflect.Uint64:
 		iValue, err := v.Int64()
@@ -584,9 +588,14 @@ func (u *Unmarshaler) processFieldPrimitiveWithJSONNumber(fieldType reflect.Type
 			return fmt.Errorf("解编组 %q 使用了错误的值 %q", fullName, v.String())
 		}
 
+		if value.OverflowUint(uint64(iValue)) {
+			return newOverflowError(fullName, v.String())
+		}
+
 		value.SetUint(uint64(iValue))
 	case reflect.Float32, reflect.Float64:
-		fValue, err := v.Float64()
+		// 按字段位宽解析：float32 取最近的可表示值，超出范围则报错
+		fValue, err := strconv.ParseFloat(v.String(), value.Type().Bits())
 		if err != nil {
 			return err
 		}
@@ -928,6 +937,10 @@ func join(elem ...string) string {
 
 func newInitError(name string) error {
 	return fmt.Errorf("字段 %s 未设置", name)
+}
+
+func newOverflowError(name, val string) error {
+	return fmt.Errorf("错误：字段 %s 的值 %s 超出类型范围", name, val)
 }
 
 func newTypeMismatchError(name string) error {
